@@ -274,7 +274,14 @@ class Run:
 
 
 def run_stream(c, hb, stream, timeout=7200, **kw):
-    rows = harness(hb, stream, timeout=timeout, **kw)
+    try:
+        rows = harness(hb, stream, timeout=timeout, **kw)
+    except (RuntimeError, subprocess.TimeoutExpired) as e:
+        # the emitter took the harness down (stack overflow, fatal error) or never returned
+        c.violation({"kind": "harness-crashed", "stream": stream, "args": kw,
+                     "broken": "stream %s: the harness process died or timed out while running the emitter" % stream,
+                     "detail": str(e)[-3000:]}, found_input=False)
+        return [], None
     x = Run(c)
     x.process(rows, stream, kw)
     st = x.finish(stream)
@@ -342,7 +349,8 @@ def main():
         "independent loaders: santhosh-tekuri/jsonschema (metaschema + every definition compiled), kin-openapi (load + Validate), cog's own internal/jsonschema and internal/openapi front-ends; their verdicts are the oracle for 'valid document of its kind'",
         "random IR (harness/irgen.go) is not necessarily producible by a front-end: the loaders are not consulted there",
     ]
-    hb, err = build_go("verifharness", "harness", files=HARNESS_FILES, tag="c12")
+    # a private copy of the repository (VERIF_REPO, mutants) gets its own binary: concurrent runs must not share one
+    hb, err = build_go("verifharness", "harness", files=HARNESS_FILES, tag="c12" if REPO == "/repo" else "c12-alt")
     c.oblige("harness (lab + c12 streams) builds against the repository working tree", hb is not None, err[-3000:])
     c.lean_obligations(THEOREMS)
     if hb is None:
@@ -358,7 +366,8 @@ def main():
     run_stream(c, hb, "c12-lab", n=n, docs=docs, seed=c.seed, tier=c.tier)
     # `any` members poison most documents of the default batch: a second batch without them so that the
     # hypotheses of C12_values_validate_partial hold for most documents
-    c.cov["c12"]["c12-lab(default)"] = c.cov["c12"].pop("c12-lab")
+    if "c12-lab" in c.cov.get("c12", {}):
+        c.cov["c12"]["c12-lab(default)"] = c.cov["c12"].pop("c12-lab")
     run_stream(c, hb, "c12-lab", n=n // 2, docs=docs, seed=c.seed + 1000, tier=c.tier, switches="-any")
     c.finish("cd /verif/lean && lake build Cog.Props.C12 drv && lake env lean <#print axioms of the C12 theorems>",
              "pinned sets (one per recorded finding) + one watchdog run of the non-terminating emission; random multi-package IR (every Kind, cross-package references, same-named objects) through the jennies vs the Lean emitter; Src terms x 3 input formats through the real pipeline: emitted JSON Schema / OpenAPI files vs the Lean emitter, independent loaders, $ref / presence / carried-over oracles, and every source-valid document re-encoded by real generated Go code validated against the emitted schema (santhosh + python jsonschema vs Lean jsValid; hypotheses of the partial theorem evaluated per document). non-trivial = emitted document > 600 bytes that the model reproduces, or validated document with >= 6 nested values")
